@@ -93,7 +93,11 @@ func reportExplore(c *vf.Ctx, j job, st exploreStats) {
 	c.Distinct("configs_"+fmt.Sprint(len(j.Cfg.Programs))+"actors", j.Cfg.key())
 	for i, f := range st.Findings {
 		rp := st.Replays[i]
-		c.Violation(j.Cfg.Target+"/"+f.FP, f.What+" [programs: "+j.Cfg.key()+"; arrival order "+fmt.Sprint(rp.Order)+"]", replayRec{Mode: "script", Script: &rp})
+		fp := j.Cfg.Target + "/" + f.FP
+		if strings.HasPrefix(f.FP, "notheld/rightful-") {
+			fp = f.FP // one defect of StarvingMutex, whichever front end reaches it
+		}
+		c.Violation(fp, f.What+" [programs: "+j.Cfg.key()+"; arrival order "+fmt.Sprint(rp.Order)+"]", replayRec{Mode: "script", Script: &rp})
 	}
 }
 
